@@ -39,7 +39,7 @@ def run(ctx):
         ctx.drive(drv, ["-mode", "edges", "-in", ep, "-targets", ",".join(targets), "-dir", os.path.join(ctx.scratch, "db-" + (var or "ideal"))],
                   name="c23-edges-" + (var or "contract"), timeout=T)
     # the pure contract replayed on the deviating targets: only the known deviations may show up
-    pend_targets = "mem,tmem,tpebble" + (",leveldb,tleveldb" if ctx.thorough else "")
+    pend_targets = "mem,tmem" + (",tpebble,leveldb,tleveldb" if ctx.thorough else "")
     s, _ = ctx.drive(drv, ["-mode", "edges", "-pending", "-in", contract_edges, "-targets", pend_targets,
                            "-dir", os.path.join(ctx.scratch, "db-pending")], name="c23-contract-on-deviating", timeout=T)
     for f, n in sorted((s.get("extra", {}).get("pending_findings") or {}).items()):
